@@ -43,6 +43,10 @@ def queries(tier, seed):
         # translator's integer->pointer model only resolves ledger blocks (env.inttoptr_unknown_object): counterexamples do not reproduce natively
         add('%s/info' % vn, fmt, pix, 5, par, L, w, h, t=t0)
         if w > 1: add('%s/too_small_view' % vn, fmt, pix, 6, par, L, w, h, t=t0)
+        if w > 1 and h > 1:
+            for (r, short) in (((0, 1, w, h - 1), 0), ((1, 0, w - 1, h), 1), ((1, 1, w - 1, h - 1), 0), ((0, 0, w, h), 0)):
+                add('%s/too_small_view_rect/%d_%d_%dx%d_%s' % ((vn,) + r + ('rows' if short == 0 else 'cols',)), fmt, pix, 11, par, L, w, h, r, probe=(short, 0), unw=(w + 2) * (h + 2) + 6,
+                    t=t0 if (r in ((0, 1, w, h - 1), (1, 0, w - 1, h)) and 'bmp32' not in vn and 'tga32' not in vn) else 'thorough')
     # palette BMP (8- and 4-bit, 4 declared colours): partial read == crop of the full converting read
     for bpp in (8, 4):
         for (w, h) in ((3, 2), (4, 3)):
